@@ -229,7 +229,7 @@ pub fn expect_op(op: &Op, mark: &str, result: &OpResult, frame_max: usize, consu
                 }
             }
         }
-        Op::Cancel { slot } | Op::DropConsumer { slot } => {
+        Op::Cancel { slot } | Op::DropConsumer { slot, .. } => {
             if *slot < consumer_tags.len() && !cancelled[*slot] && *result != OpResult::Skipped {
                 cancelled[*slot] = true;
                 v.push(cancel_frame(&consumer_tags[*slot]));
@@ -399,7 +399,7 @@ pub fn expectations(hist: &History, frame_max: usize) -> Vec<ChannelExpectation>
             let e = by_ch.get_mut(&o.ch_id).unwrap();
             // Cancel/Drop refer to consumer slots whose channel may differ from the op's slot
             match &o.op {
-                Op::Cancel { slot } | Op::DropConsumer { slot } => {
+                Op::Cancel { slot } | Op::DropConsumer { slot, .. } => {
                     if *slot < tags.len() && !cancelled[*slot] {
                         cancelled[*slot] = true;
                         let chid = tag_channel[*slot];
